@@ -116,11 +116,21 @@ func registerCompiledRoute(router *server.Router, route *ast.Route, bytecode []b
 	return router.RegisterRoute(serverRoute)
 }
 
+// maxCompiledRouteSteps is the number of VM instructions one request to a
+// compiled route may execute before it fails with an internal error. It is
+// generous enough for any loop the interpreter's own limit of 1,000,000
+// iterations per while loop allows.
+const maxCompiledRouteSteps = 100_000_000
+
 // createCompiledRouteHandler creates an HTTP handler that executes compiled bytecode
 func createCompiledRouteHandler(route *ast.Route, bytecode []byte, wsHub *websocket.Hub) server.RouteHandler {
 	return func(ctx *server.Context) error {
 		// Create VM instance
 		vmInstance := vm.NewVM()
+
+		// Bound the work of one request: without a step limit a route such
+		// as `while true {}` would occupy its goroutine forever.
+		vmInstance.SetMaxSteps(maxCompiledRouteSteps)
 
 		// Set up WebSocket stats handler if hub is available
 		if wsHub != nil {
